@@ -867,7 +867,7 @@ def rule_dep(ctx):
 SPECS = [
     RuleSpec("C19.R1", rule_r1, 4, "A5", "dominant bpm: stages in order, span ends at the last object, intervals paired with their own bpm, grouped by value"),
     RuleSpec("C19.R2", rule_r2, 4, "A7", "scroll speed: formula shape, SV precedence over coincident tempo reset, sorted before fills"),
-    RuleSpec("C19.R3", rule_r3, 5, "A7", "sv_normalize: one row per tempo point, multiplier = reference / bpm, projection onto declared SV columns"),
+    RuleSpec("C19.R3", rule_r3, 5, "A7", "sv_normalize: one row per tempo point, multiplier = reference / bpm computed on the frame's own labels, projection onto declared SV columns"),
     RuleSpec("C19.R4", rule_r4, 2, "A7", "an override replaces the reference in both"),
     RuleSpec("C19.D", rule_dep, 1, "M0", "rules of the shared code (timing engine, list classes, stacker) that the operations of this property reach"),
 ]
